@@ -14,12 +14,13 @@ from ..scen import REQ, RESP, hb
 LEVEL = 'exploration'
 RULE = ('each case = one prepared endpoint + one peer byte string (valid traffic, hostile traffic, limit-changing streams such as '
         'SETTINGS-ACK raising MAX_FRAME_SIZE followed by a frame between the old and new limit, big frames, long first header '
-        'fragments, the client preface) executed whole on a twin and under chunkings: ALL two-way splits and the all-single-byte '
+        'fragments, frames that are wrong in two ways at once (inside an open header block and oversized / of the wrong fixed '
+        'length / on the wrong stream), the client preface) executed whole on a twin and under chunkings: ALL two-way splits and the all-single-byte '
         'split for strings <= 300 bytes, frame-boundary-biased and random k-way splits (k<=12, empty chunks) otherwise; plus '
         'random data_to_send(amount) sequences; non-trivial = at least 5 chunked executions compared with the whole-string one; '
         'distinct = hash of (preparation, byte string)')
 MINIMA = {'chunked_executions_compared': 60000, 'error_case_strings': 300, 'noerror_case_strings': 600,
-          'exhaustive_two_way_strings': 400, 'limit_changing_strings': 100, 'output_partitions_checked': 300,
+          'exhaustive_two_way_strings': 400, 'limit_changing_strings': 100, 'doubly_invalid_strings': 100, 'output_partitions_checked': 300,
           'boundary_biased_splits': 5000}
 
 
@@ -74,7 +75,8 @@ def exc_sig(e):
 
 def run_case(idx, rng, tier, rep):
     e_client = rng.random() < 0.5
-    kind = rng.choice(['valid', 'valid', 'hostile', 'hostile', 'limit', 'bigframe', 'longfrag', 'preface', 'output', 'output'])
+    kind = rng.choice(['valid', 'valid', 'hostile', 'hostile', 'limit', 'bigframe', 'longfrag', 'preface', 'output', 'output',
+                       'twodefects'])
     if kind == 'output':
         return run_output(idx, rng, rep)
     prep = {'handshake': True, 'streams': [rng.choice(['open', 'open_resp', 'hc_local', 'hc_remote', 'closed_rst_sent'])
@@ -142,6 +144,33 @@ def run_case(idx, rng, tier, rep):
         data = (wire.build_headers(sid, block[:c1], end_headers=False, end_stream=rng.random() < 0.5) +
                 wire.build_continuation(sid, block[c1:c2], end_headers=False) +
                 wire.build_continuation(sid, block[c2:], end_headers=True) + wire.build_ping(b'tailping'))
+    elif kind == 'twodefects':
+        # one frame that is wrong in two ways at once (misplaced inside an open header block, over the size limit, fixed-size
+        # body of the wrong length, wrong stream id): which defect is reported must not depend on where the bytes are cut
+        rep.count('doubly_invalid_strings')
+        if e_client:
+            sid, _ = base.e_request()
+        else:
+            sid = base.peer_next
+        block = hb(RESP if e_client else REQ)
+        in_block = rng.random() < 0.7
+        if in_block:
+            cut = rng.randrange(0, len(block))
+            data = wire.build_headers(sid, block[:cut], end_headers=False)
+        else:
+            data = wire.build_headers(sid, block)
+        ftype, good_len = rng.choice([(wire.PING, 8), (wire.RST_STREAM, 4), (wire.WINDOW_UPDATE, 4), (wire.PRIORITY, 5),
+                                      (wire.SETTINGS, 6), (wire.DATA, 10), (0x50, 10), (wire.GOAWAY, 8), (wire.CONTINUATION, 3),
+                                      (wire.HEADERS, 1)])
+        defect = rng.choice(['oversize', 'oversize', 'bad-length', 'bad-length', 'wrong-stream', 'none'])
+        n = {'oversize': rng.choice([16385, 16400, 20000]), 'bad-length': rng.choice([good_len - 1, good_len + 1, 0, 7, 3, 5]),
+             'wrong-stream': good_len, 'none': good_len}[defect]
+        on_zero = ftype in (wire.PING, wire.SETTINGS, wire.GOAWAY) or (ftype == wire.WINDOW_UPDATE and rng.random() < 0.5)
+        fsid = 0 if on_zero else sid
+        if defect == 'wrong-stream' or (not in_block and rng.random() < 0.3):
+            fsid = sid if on_zero else rng.choice([0, sid + 2, 2])
+        data += wire.raw_frame(ftype, rng.choice([0, 0, 1, 4, 5]), fsid, bytes(n))
+        data += wire.build_ping(b'two-defs')
     elif kind == 'preface':
         prep = {'handshake': False, 'initiate': rng.random() < 0.8}
         e_client = False
